@@ -23,7 +23,7 @@ def strategy(optimizer, tier):
         optimizer,
         task=strategies.task_spec(encodings=ENC, minmax=("min", "max", "max")),
         config=strategies.config_spec(optimizer, max_cycles=(1, 6 if tier == "quick" else 20)),
-        modes=("serial",) * 20 + ("thread", "process"))
+        modes=("serial",) * 20 + ("thread", "process"), warmup=0.15)
 
 
 def judge(spec, obs):
